@@ -152,6 +152,9 @@ def execute(prog, how, pol, seed, monitors, rrt_exp=None, fresh_scheduler=True, 
         # no Tasklang statement flushes a batch by hand except through item.value(), which checks first: this
         # error can only come from the scheduler flushing a batch that is already flushed or cancelled
         rt.violation("computation-ended-with-BatchingError", {"exception": short(out[1], 200)})
+    if out[0] == "exc" and out[1] and out[1][0] == "AsyncTaskError":
+        # asynq's own "something is wrong with this task" error: no Tasklang statement raises it
+        rt.violation("computation-ended-with-an-asynq-internal-error", {"exception": short(out[1], 200)})
     if "nesting" in monitors:
         M.nesting_check(rt)
     if book is not None:
